@@ -166,6 +166,8 @@ class Builder:
             return obj
         if t == 'tuple':
             return self._reg(r, tuple(self.value(x) for x in v))
+        if t == 'anyeq':
+            return collab.AnyEq()
         if t == 'mytuple':
             return self._reg(r, collab.MyTuple(self.value(x) for x in v))
         if t == 'set':
